@@ -121,7 +121,16 @@ def run_unit(uname, ucfg, tier, keep=False, extra_kani_args=()):
         env = dict(os.environ, CARGO_TARGET_DIR=CACHE, CARGO_NET_OFFLINE="true")
         res.cmd = " ".join(cmd) + "   (in a scratch copy of /repo with the harnesses of contracts/kani/%s injected)" % uname
         try:
-            p = subprocess.run(cmd, cwd=tmp, env=env, capture_output=True, text=True, timeout=cfg.get("timeout", 1800))
+            # one Kani run at a time on this machine: concurrent `cargo kani` invocations sharing a
+            # target directory overwrite each other's goto binaries (and 12 CBMC jobs each can
+            # exhaust memory)
+            import fcntl
+            lock = open(os.path.join(VERIF, ".cache", "kani.lock"), "w")
+            fcntl.flock(lock, fcntl.LOCK_EX)
+            try:
+                p = subprocess.run(cmd, cwd=tmp, env=env, capture_output=True, text=True, timeout=cfg.get("timeout", 1800))
+            finally:
+                fcntl.flock(lock, fcntl.LOCK_UN)
             out = p.stdout + "\n" + p.stderr
         except subprocess.TimeoutExpired as e:
             res.status, res.reason = "undecided", "cargo kani timeout after %ss" % cfg.get("timeout", 1800)
